@@ -38,6 +38,7 @@ type g2lUnit struct {
 	absTypes  map[string]string // Go named type -> Lean type variable ("Hash" -> "H")
 	absFuncs  map[string]string // Go function -> Lean parameter name ("NodeHash" -> "node")
 	absSigs   map[string]string // Lean parameter name -> Lean type ("node" -> "H → H → H")
+	absVars   map[string]string // Go package variable -> Lean parameter name ("emptyHash" -> "empty")
 	ifaces    map[string]string // interface type name -> Lean type of the value (its single method is application)
 	imports   []string          // extra Lean imports
 	externs   map[string]string // calls to functions of OTHER units: "semver.IsValid" -> "ModVerif.Generated.Semver.IsValid"
@@ -137,6 +138,7 @@ type g2lFn struct {
 	inLoop   *g2lLoop
 	brk      *brkTarget
 	monad    string
+	want     types.Type // expected type of the expression being compiled (for nil)
 	structs  map[string]*types.Named
 }
 
@@ -414,6 +416,14 @@ func (f *g2lFn) arith(b *binds, t types.Type, term string) string {
 	return "(" + term + ")"
 }
 
+// exprAs compiles e where a value of type t is expected (so that `nil` gets the right zero value)
+func (f *g2lFn) exprAs(b *binds, e ast.Expr, t types.Type) string {
+	if id, ok := e.(*ast.Ident); ok && id.Name == "nil" && t != nil {
+		return f.zero(t, e)
+	}
+	return f.expr(b, e)
+}
+
 func (f *g2lFn) expr(b *binds, e ast.Expr) string {
 	if tv, ok := f.p.info.Types[e]; ok && tv.Value != nil {
 		switch tv.Value.Kind() {
@@ -436,11 +446,16 @@ func (f *g2lFn) expr(b *binds, e ast.Expr) string {
 		case "true", "false":
 			return e.Name
 		case "nil":
-			tv := f.p.info.Types[e]
-			_ = tv
+			if f.want != nil {
+				return f.zero(f.want, e)
+			}
 			return "none"
 		}
 		if o, ok := f.p.info.Uses[e].(*types.Var); ok && !o.IsField() && o.Parent() == f.p.pkg.Scope() {
+			if p, ok := f.u.absVars[e.Name]; ok {
+				f.useAbs(p)
+				return p
+			}
 			// package-level variable: only error sentinels are supported
 			if isErrorType(o.Type()) {
 				return fmt.Sprintf("(some %q)", e.Name)
@@ -512,6 +527,14 @@ func (f *g2lFn) expr(b *binds, e ast.Expr) string {
 
 func (f *g2lFn) composite(b *binds, e *ast.CompositeLit) string {
 	t := f.typeOf(e)
+	if n, ok := t.(*types.Named); ok {
+		if v, ok := f.u.absTypes[n.Obj().Name()]; ok {
+			if len(e.Elts) != 0 {
+				f.bad(e, "non-zero literal of abstract type %s", n.Obj().Name())
+			}
+			return "(default : " + v + ")"
+		}
+	}
 	switch u := t.Underlying().(type) {
 	case *types.Slice:
 		parts := []string{}
@@ -564,8 +587,8 @@ func (f *g2lFn) binary(b *binds, e *ast.BinaryExpr) string {
 		}
 		return f.bindM(b, fmt.Sprintf("(if %s then pure true else %s)", x, inner))
 	}
-	x := f.expr(b, e.X)
-	y := f.expr(b, e.Y)
+	x := f.exprAs(b, e.X, f.typeOf(e.Y))
+	y := f.exprAs(b, e.Y, xt)
 	rt := f.typeOf(e)
 	switch e.Op {
 	case token.EQL, token.NEQ:
